@@ -1011,6 +1011,15 @@ func runC12(c *fw.Ctx) {
 	for _, w := range worlds {
 		w.nullTrailerConformance(c)
 	}
+	// first (cheap, and independent of the time budget): one wide index per version and object format with every
+	// name-length residue under every flag combination, stages, long names with flags
+	for _, w := range worlds {
+		dir := c.TempDir("c12wide-" + w.of)
+		wide := c12WideSpecs()
+		for _, v := range []uint32{2, 3, 4} {
+			w.checkGoGitIndex(c, v, wide, filepath.Join(dir, fmt.Sprintf("wide%d", v)))
+		}
+	}
 	for _, w := range worlds {
 		if w.of == "sha256" && !c.Thorough() {
 			continue // after sha1, below
@@ -1081,14 +1090,6 @@ func runC12(c *fw.Ctx) {
 			}
 			w.checkGoGitIndex(c, j.v, ss, filepath.Join(dir, fmt.Sprintf("e%d", i)))
 		})
-		// one wide index: every name-length residue with every flag combination, stages, long names with flags
-		wide := c12WideSpecs()
-		for _, v := range []uint32{2, 3, 4} {
-			if c.Expired() {
-				break
-			}
-			w.checkGoGitIndex(c, v, wide, filepath.Join(dir, fmt.Sprintf("wide%d", v)))
-		}
 	}
 	// skipHash round trip (go-git only: git 2.39 has no index.skipHash)
 	for _, hs := range []int{20, 32} {
